@@ -647,6 +647,12 @@ def judge_prelude(case, verdict=True):
         bad.append("Line(P, P) accepted")
     except Exception:
         pass
+    try:
+        cfg = (G.get_eps(), G.get_sig_figures())
+        if cfg != (1e-10, 10):
+            bad.append("configuration (eps, significant figures) = %r although nobody set it" % (cfg,))
+    except Exception as e:
+        bad.append("get_eps raised %r" % e)
     if bad and verdict:
         mu.fail("global-state:" + bad[0].split("(")[0].split("=")[0].strip().replace(" ", "-")[:40],
                 "after ordinary use (moving / editing objects obtained from the library's factory functions): " + "; ".join(bad[:3]))
